@@ -58,7 +58,7 @@ impl Property for C18 {
     }
 
     fn rule(&self) -> &'static str {
-        "case = (definitions incl. up to 6 decoy tables before/after the queried one, statement [* over 10 columns / * over a join with clashing column names / GROUP BY with 6-8 aggregates and a HAVING over several more / COUNT(DISTINCT) and join keys over REAL values that are equal but not bit-identical (0.0, -0.0), TEXT, INT / an error-producing row], input given as 1-3 files (rare regime: 2-5 files of thousands of lines under ARRAY_AGG / STRING_AGG / REAL sums, whose value depends on arrival order), joined file with 3-6 partners per key, K hash-key blocks [8 quick, 64 thorough], repeat count). The same query runs once per key block on a fresh thread (getrandom seam), twice under the same block, repeated inside one thread, and for a fraction of cases once under real OS entropy; all outputs must be byte-identical; so must the run with only the queried and the joined table defined (half of the other tables reuse their column names) and, for joins, the run on an engine that has loaded its joined table once before. Non-trivial iff two of the key blocks give a different iteration order to a 16-entry probe HashMap built on the same kind of thread AND the input has >=2 lines; distinct by (case content hash, key-block set)."
+        "case = (definitions incl. up to 6 decoy tables before/after the queried one, statement [* over 10 columns / * over a join with clashing column names / GROUP BY with 6-8 aggregates and a HAVING over several more / COUNT(DISTINCT) and join keys over REAL values that are equal but not bit-identical (0.0, -0.0), TEXT, INT / an error-producing row / a join printing the joined rows' file positions (21-70 joined rows: must be joined-file order) / TEXT group keys starting with non-ASCII characters (must come out ascending)], input given as 1-3 files (rare regime: 2-5 files of thousands of lines under ARRAY_AGG / STRING_AGG / REAL sums, whose value depends on arrival order), joined file with 3-6 partners per key, K hash-key blocks [8 quick, 64 thorough], repeat count). The same query runs once per key block on a fresh thread (getrandom seam), twice under the same block, repeated inside one thread, and for a fraction of cases once under real OS entropy; all outputs must be byte-identical; so must the run with only the queried and the joined table defined (half of the other tables reuse their column names) and, for joins, the run on an engine that has loaded its joined table once before. Non-trivial iff two of the key blocks give a different iteration order to a 16-entry probe HashMap built on the same kind of thread AND the input has >=2 lines; distinct by (case content hash, key-block set)."
     }
 
     fn assumptions(&self) -> Vec<String> {
@@ -129,11 +129,12 @@ impl Property for C18 {
                 "os_entropy": false,
             });
         }
-        let kind = *rng.pick(&["star", "star_join", "group", "group", "distinct_real", "distinct_real", "join_real", "join_int", "join_int_real", "error_row", "group_special_real", "group_special_real", "name_lookup", "many_groups", "history", "dup_names", "tz", "env"]);
+        let kind = *rng.pick(&["star", "star_join", "group", "group", "distinct_real", "distinct_real", "join_real", "join_int", "join_int_real", "error_row", "group_special_real", "group_special_real", "name_lookup", "many_groups", "history", "dup_names", "tz", "env", "join_order"]);
         let zero_heavy = kind == "distinct_real" || kind == "join_real" || kind == "group_special_real" || rng.chance(1, 4);
         // REAL values that are not ordinary numbers: NaN, infinities (legal literals for a REAL column)
         let special = kind == "group_special_real";
-        let keys_txt = ["a", "b", "c"];
+        // group keys that start with non-ASCII characters among keys that start with ASCII ones (for a quarter of the cases)
+        let keys_txt: [&str; 3] = if rng.chance(1, 4) { *rng.pick(&[["Zoe", "adam", "Åsa"], ["émile", "b", "Örjan"], ["ß", "z", "A"]]) } else { ["a", "b", "c"] };
         let n_lines = if kind == "many_groups" { rng.range(20, 60) as usize } else if special { rng.range(4, 26) as usize } else { rng.range(2, 9) as usize };
         let mut lines: Vec<String> = Vec::new();
         for li in 0..n_lines {
@@ -167,7 +168,16 @@ impl Property for C18 {
             }
             rng.shuffle(&mut joined);
         }
+        if kind == "join_order" {
+            // more joined rows than any small-size special case covers, several partners per key, keys interleaved;
+            // x is the row's position in the joined file
+            joined.clear();
+            for i in 0..rng.range(21, 70) {
+                joined.push(format!("V {} 0.5 {} {}", rng.pick(&keys_txt), i, rng.pick(&["p", "q", "r"])));
+            }
+        }
         let stmt = match kind {
+            "join_order" => format!("SELECT v.x FROM w INNER JOIN v::'{}' ON w.c0 = v.c0", JOINED_PATH),
             "star" => "SELECT * FROM w".to_owned(),
             "star_join" => format!("SELECT * FROM w {} JOIN v::'{}' ON w.c0 = v.c0", rng.pick(&["INNER", "OUTER"]), JOINED_PATH),
             "group" => format!(
@@ -248,7 +258,7 @@ impl Property for C18 {
             "keys": keys_to_json(&keys),
             "repeat": rng.range(1, 3),
             "n_files": *rng.pick(&[1, 1, 1, 2, 3]),
-            "format": if special { *rng.pick(&["text", "csv"]) } else if kind == "dup_names" { "json" } else if kind == "env" { "csv" } else { *rng.pick(&["text", "json", "csv"]) },
+            "format": if special { *rng.pick(&["text", "csv"]) } else if kind == "dup_names" { "json" } else if kind == "env" { "csv" } else if kind == "join_order" { "text" } else { *rng.pick(&["text", "json", "csv"]) },
             "os_entropy": rng.chance(1, 16),
         })
     }
@@ -382,6 +392,34 @@ impl Property for C18 {
                 return out;
             }
             out.probe("os_entropy_runs", 1);
+        }
+        if kind == "join_order" && s0 == "Ok" {
+            // "joined partners in joined-file order": x is the position of the joined row in its file
+            let mut expect: Vec<i64> = Vec::new();
+            for l in &lines {
+                let key = l.split(' ').nth(1).unwrap_or("");
+                for (i, j) in joined.iter().enumerate() {
+                    if j.split(' ').nth(1) == Some(key) {
+                        expect.push(i as i64);
+                    }
+                }
+            }
+            let got: Vec<i64> = r0.iter().filter_map(|r| r.rsplit(|c: char| !(c.is_ascii_digit() || c == '-')).next().and_then(|t| t.parse::<i64>().ok())).collect();
+            if got != expect {
+                out.violate("c18.partner_order", format!("{}: joined rows come out as positions {:?} of the joined file, in joined-file order they are {:?}", stmt, got, expect), features.clone());
+                return out;
+            }
+            out.probe("partner_order_checked", 1);
+        }
+        if (kind == "group" || kind == "many_groups") && s0 == "Ok" && format == "text" && stmt.starts_with("SELECT c0,") && !stmt.starts_with("SELECT c0, c1,") {
+            // "groups in ascending key order" (TEXT keys: order of their UTF-8 bytes / code points)
+            let keys_out: Vec<String> = r0.iter().filter_map(|r| r.strip_prefix("c0: '").and_then(|t| t.split('\'').next()).map(|t| t.to_owned())).collect();
+            if keys_out.len() == r0.len() && keys_out.windows(2).any(|w| w[0].as_bytes() >= w[1].as_bytes()) {
+                out.violate("c18.group_order", format!("{}: groups come out in the order {:?}, which is not ascending", stmt, keys_out), features.clone());
+                return out;
+            }
+            out.probe("group_order_checked", (keys_out.len() == r0.len() && keys_out.len() >= 2) as u64);
+            out.probe("group_keys_start_with_non_ascii", keys_out.iter().any(|k| !k.is_ascii()) as u64);
         }
         if stmt.contains(" JOIN ") && kind != "huge_joined" {
             // an engine that has loaded its joined table before (the constructor the Python wrapper uses) and loads it
